@@ -5,8 +5,8 @@ import (
 	"github.com/karagenc/socket.io-go/parser"
 )
 
-// C05_route_server: a connection that joined a symbolic subset of {/, /a}; a packet of ANY type addressed to /, /a or
-// /b (existing but not joined) or /zz (not existing) arrives. It is dispatched only to the socket of exactly that
+// C05_route_server: a connection that joined a symbolic subset of {/, /a}; a packet of ANY type addressed to /, /a,
+// /b (existing but not joined), /zz (not existing), '' or a SYMBOLIC name "/"+x arrives. It is dispatched only to the socket of exactly that
 // namespace; a non-CONNECT packet for a namespace without a socket, or a CONNECT for one already joined, closes the
 // connection and is dispatched to nobody; a CONNECT for an existing unjoined namespace attaches the client there and
 // nowhere else.
@@ -35,7 +35,18 @@ func verifH_C05_route_server() {
 	verifAssume(tb <= 6)
 	typ := parser.PacketType(tb)
 	targets := []string{"/", "/a", "/b", "/zz", ""}
-	target := targets[verifChoose(0, 4)]
+	target := ""
+	if k := verifChoose(0, 5); k < 5 {
+		target = targets[k]
+	} else {
+		// a SYMBOLIC namespace "/"+x (x: 1..2 arbitrary comma-free bytes): look-alikes of the joined names such as "/a/",
+		// "//", "/A", "/a " are points of the solver's domain
+		x := verifString(verifChoose(1, 2))
+		for i := 0; i < len(x); i++ {
+			verifAssume(x[i] != ',')
+		}
+		target = "/" + x
+	}
 	eff := target
 	if eff == "" {
 		eff = "/"
